@@ -80,7 +80,7 @@ func plan0(prop, tier string) []phase {
 		if q {
 			return []phase{{Part: "", Race: false, Runs: 60000, MaxWall: 100 * time.Second}}
 		}
-		return []phase{{Part: "", Race: false, Runs: 3000000, MaxWall: 25 * time.Minute}}
+		return []phase{{Part: "", Race: false, Runs: 12000000, MaxWall: 25 * time.Minute}}
 	case "C05":
 		if q {
 			return []phase{{Part: "", Race: false, Runs: 5000, MaxWall: 60 * time.Second}, {Part: "", Race: true, Runs: 2000, MaxWall: 100 * time.Second}}
@@ -90,7 +90,7 @@ func plan0(prop, tier string) []phase {
 		if q {
 			return []phase{{Part: "H", Race: false, Runs: 60000, MaxWall: 40 * time.Second}, {Part: "G", Race: false, Runs: 30000, MaxWall: 50 * time.Second}, {Part: "G", Race: true, Runs: 8000, MaxWall: 80 * time.Second}}
 		}
-		return []phase{{Part: "H", Race: false, Runs: 3000000, MaxWall: 8 * time.Minute}, {Part: "G", Race: false, Runs: 1500000, MaxWall: 10 * time.Minute}, {Part: "G", Race: true, Runs: 400000, MaxWall: 15 * time.Minute}}
+		return []phase{{Part: "H", Race: false, Runs: 8000000, MaxWall: 8 * time.Minute}, {Part: "G", Race: false, Runs: 5000000, MaxWall: 10 * time.Minute}, {Part: "G", Race: true, Runs: 1500000, MaxWall: 15 * time.Minute}}
 	}
 	return nil
 }
